@@ -82,8 +82,11 @@ static void waiter (void *a) {
 	vrt_acquired (&mu, writer);
 	vrt_sh_set (DL_OF (me), (long) dl_ns); vrt_sh_set (IN_WAIT (me), 1);
 	vrt_releasing (&mu, writer);
+	/* for replay/semwait_replay.ml: every nsync_sem_wait_with_cancel_ between these two notes has (deadline dl, cancel note 0) */
+	if (dk == 0) vrt_note ("sw wait %d 0 none", vrt_self ()); else vrt_note ("sw wait %d 0 %lld", vrt_self (), (long long) dl_ns);
 	if (use_mu_wait) r = nsync_mu_wait_with_deadline (&mu, never, NULL, NULL, dl, note);
 	else { r = 0; while (r == 0) r = nsync_cv_wait_with_deadline (&cv, &mu, dl, note); }
+	vrt_note ("sw ret %d %d", vrt_self (), r);
 	vrt_sh_set (IN_WAIT (me), 0);
 	vrt_acquired (&mu, writer);
 	if (r == ECANCELED) {
@@ -115,9 +118,16 @@ static void notifier (void *a) {
 	else for (k = 0; k < n; k++) vrt_point ("before-notify");
 	observe ();
 	if (!omit_notify) {
+		int via_parent, isn;
 		vrt_sh_set (NOTIFY_STARTED_AT, (long) vrt_now_ns ());
-		nsync_note_notify (kind == 3 && vrt_rand (2) ? parent_note : note);
-		if (nsync_note_is_notified (note)) vrt_sh_set (NOTIFY_DONE_AT, (long) vrt_now_ns ());
+		via_parent = kind == 3 && vrt_rand (2);
+		vrt_note ("sw call %d %s 0", vrt_self (), via_parent ? "pnotify" : "notify");
+		nsync_note_notify (via_parent ? parent_note : note);
+		vrt_note ("sw ret %d -", vrt_self ());
+		vrt_note ("sw call %d isn 0", vrt_self ());
+		isn = nsync_note_is_notified (note);
+		vrt_note ("sw ret %d %d", vrt_self (), isn);
+		if (isn) vrt_sh_set (NOTIFY_DONE_AT, (long) vrt_now_ns ());
 		vrt_count ("notify");
 	} else vrt_count ("notify_omitted");
 	/* keep looking until the waiters are done or every deadline and expiry lies in the past; whoever is still asleep then and is
@@ -134,6 +144,15 @@ static void bystander (void *a) {     /* keeps the mutex busy now and then, in b
 		else { nsync_mu_rlock (&mu); vrt_acquired (&mu, 0); vrt_point ("busy-r"); vrt_releasing (&mu, 0); nsync_mu_runlock (&mu); }
 	}
 }
+/* for replay/semwait_replay.ml: the cancel note is note 0 of the model: its block, its expiry, whether it has a parent (and the
+   parent's block).  Not instrumented: the announcement adds no plain access to the run. */
+NOSAN static void announce_note (void) {
+	char rb[40], pb[40];
+	vrt_region_name (note, rb, sizeof (rb));
+	if (kind == 3) vrt_region_name (parent_note, pb, sizeof (pb)); else snprintf (pb, sizeof (pb), "-");
+	if (kind >= 2) vrt_note ("sw note 0 %s %lld %d %s", rb, (long long) note_expiry_ns, kind == 3, pb);
+	else vrt_note ("sw note 0 %s none 0 %s", rb, pb);
+}
 int main (void) {
 	int i;
 	static char nm[4][8];
@@ -143,7 +162,14 @@ int main (void) {
 	if (kind == 3) { parent_note = nsync_note_new (NULL, vrt_abs (1500)); note = nsync_note_new (parent_note, nsync_time_no_deadline); }
 	else note = nsync_note_new (NULL, kind == 2 ? vrt_abs (1500) : nsync_time_no_deadline);
 	if (kind >= 2) note_expiry_ns = ts_ns (vrt_abs (1500));
-	if (kind == 1) { vrt_sh_set (NOTIFY_STARTED_AT, 1); nsync_note_notify (note); vrt_sh_set (NOTIFY_DONE_AT, 1); }
+	announce_note ();
+	if (kind == 1) {
+		vrt_sh_set (NOTIFY_STARTED_AT, 1);
+		vrt_note ("sw call %d notify 0", vrt_self ());
+		nsync_note_notify (note);
+		vrt_note ("sw ret %d -", vrt_self ());
+		vrt_sh_set (NOTIFY_DONE_AT, 1);
+	}
 	for (i = 0; i < nwaiters; i++) { snprintf (nm[i], 8, "w%d", i); wtid[i] = tids[n_tids++] = vrt_thread (nm[i], waiter, (void *) (long) i); }
 	/* fresh notes are always notified by the notifier thread; expiring notes and children of expiring parents are notified
 	   explicitly in half of the runs only: in the others the expiry is the only thing that can end a wait without deadline */
